@@ -251,7 +251,16 @@ def search_programs(ctx: Ctx, pl: cxx.Pipeline) -> SearchResult:
 
 	# 1. corpus: minimised witnesses of the known defect classes, replayed first (concrete replays)
 	corpus = load_corpus()
-	cres = pl.check_many([c['program'] for c in corpus], per_unit=1, fresh=False) if corpus else []
+	# witnesses of listed known findings are expected to fail (own translation unit each); the others are regressions of repaired defects and
+	# are expected to agree: compiled together (a unit that g++ rejects is recompiled program by program by check_many)
+	try:
+		listed = {k.get('key') for k in common.load_known(PROP)}
+	except Exception:  # noqa: BLE001 - the list only decides how the witnesses are grouped
+		listed = set()
+	corpus.sort(key=lambda c: (c['key'] in listed, c['_file']))
+	n_agree = sum(1 for c in corpus if c['key'] not in listed)
+	cres = (pl.check_many([c['program'] for c in corpus[:n_agree]], per_unit=8, fresh=False) if n_agree else []) \
+		+ (pl.check_many([c['program'] for c in corpus[n_agree:]], per_unit=1, fresh=False) if corpus[n_agree:] else [])
 	for c, r in zip(corpus, cres):
 		res.cases += 1
 		hist[f"corpus:{r['status']}"] += 1
